@@ -281,6 +281,11 @@ func runC08(c *Ctx) {
 		sty := s.Build()
 		targets := c08Targets(s)
 		vals := c08Values(s, c.Thorough)
+		if s.K == 'n' {
+			// the primitive conversions see every number of the full alphabet (precisions, magnitudes,
+			// float64-exact fractions with long expansions), in both tiers
+			vals = dedupRaw(append(vals, mkNums(numAlphabet(true))...))
+		}
 		for _, t := range targets {
 			t := t
 			c.Unit(func(u *U) {
